@@ -243,7 +243,9 @@ pub fn run(prop: &str, seed: u64, nhist: usize, trace_path: Option<&str>, rep: &
         let p = [Props { lc: 3, lp: 0, pb: 2 }, Props { lc: 0, lp: 4, pb: 4 }, Props { lc: 8, lp: 0, pb: 0 }, Props { lc: 2, lp: 2, pb: 1 }][h % 4];
         let pool = lzma_pool(&mut rng, p);
         let csize = if h % 3 == 0 { pool[0].1 } else { None };
-        let mk = |size: Option<u64>| LzmaDecoder::new(LzmaParams::new(LzmaProperties { lc: p.lc, lp: p.lp, pb: p.pb }, 4096, size), None).unwrap();
+        // some histories run under a memory limit (a reused decoder must enforce it like a new one)
+        let memlimit: Option<usize> = [None, None, Some(64usize), Some(5000), Some(300)][h % 5];
+        let mk = |size: Option<u64>| LzmaDecoder::new(LzmaParams::new(LzmaProperties { lc: p.lc, lp: p.lp, pb: p.pb }, 4096, size), memlimit).unwrap();
         let mut d = mk(csize);
         let mut size_eff = csize;
         if let Some(e) = ev("new", json!({"kind": "lzma", "cprops": p.lc * 100 + p.lp * 10 + p.pb, "csize": enc_size(csize)}), proj1(&d)) {
